@@ -420,6 +420,7 @@ type FuncContract struct {
 	Modifies  []*Clause
 	LoopInv   map[int][]*Clause
 	LoopDec   map[int]*Clause
+	LoopEntry map[int][]*Clause
 	Safety    bool
 	Pure      bool // result is a function of the arguments (uninterpreted), no effects
 	NoEffect  bool // no effect on modelled state
@@ -744,6 +745,12 @@ func (cs *ContractSet) ParseContractFile(path, pkgPath string) error {
 				cur.LoopInv[n] = append(cur.LoopInv[n], c)
 			case "decreases":
 				cur.LoopDec[n] = c
+			case "entry":
+				// loop N entry [label] e: holds when the loop is first reached (checked there, not an invariant)
+				if cur.LoopEntry == nil {
+					cur.LoopEntry = map[int][]*Clause{}
+				}
+				cur.LoopEntry[n] = append(cur.LoopEntry[n], c)
 			default:
 				return fail(fmt.Errorf("unknown loop clause %q", kw))
 			}
